@@ -48,7 +48,7 @@ meta['needs_to_manifest'] = notes[:1500]
 if pid in ('C14', 'C15', 'C16', 'C17', 'C18', 'C19', 'C20'):
     envc = dict(env, VERIF_REPO=scratch, VERIF_EVIDENCE_DIR=scratch + '/ev')
     r = subprocess.run([PY, '/verif/check.py', pid], capture_output=True, text=True, env=envc, timeout=3600)
-    sig = re.findall(r'^violation (\S+)', r.stdout, re.M)
+    sig = re.findall(r'^(?:under python -O[^:]*: )?violation (\S+)', r.stdout, re.M)
     meta['quick_check'] = {'cmd': 'VERIF_REPO=<patched copy> ./check %s' % pid, 'exit': r.returncode,
                            'signature': sig[:1], 'detected': r.returncode == 1 and 'VIOLATION property=' + pid in r.stdout}
     mm = re.search(r'replay=(\S+)', r.stdout)
